@@ -51,6 +51,7 @@ def run(facts, report, config):
     eng = flow.Engine(facts, flow.Policy())
     eng.run_all(collect=False)
     run_zip(facts, report, config, eng)
+    run_hash(facts, report, config, eng)
     for b in facts.fn_bodies():
         if b["kind"] == "Closure" or b.get("name") not in SELECT_NAMES:
             continue
@@ -215,10 +216,40 @@ class IterProv(mir.Provenance):
         return mir.last_seg(mir.callee_decl(term)) in ITER_VP and len(term["args"]) >= 1
 
 
-def run_zip(facts, report, config, eng=None):
-    """In a predicate over two heap-allocated operands, `zip` of their limb iterators silently stops at
-    the shorter one: values differing only above the narrower operand would compare equal. Such a zip is
-    accepted only when the function also checks the two lengths against each other."""
+def _cond_binop(view, bb):
+    """operator of the comparison that decides the SwitchInt ending block bb (through copies and `!`)"""
+    t = view.blocks[bb]["term"]
+    if t["k"] != "switch" or t["op"][0] not in ("c", "m"):
+        return None
+    cur = t["op"][1][0]
+    for _ in range(6):
+        found = None
+        for s in reversed(view.blocks[bb]["stmts"]):
+            if s[0] == "a" and s[1][0] == cur and not s[1][1]:
+                found = s[2]
+                break
+        if found is None:
+            return None
+        if found[0] == "bin":
+            return found[1]
+        if found[0] == "un" and found[2][0] in ("c", "m"):
+            cur = found[2][1][0]
+        elif found[0] == "use" and found[1][0] in ("c", "m"):
+            cur = found[1][1][0]
+        else:
+            return None
+    return None
+
+
+def _is_dyn(ty):
+    return "uint::boxed::BoxedUint" in ty or "[limb::Limb]" in ty or "[Limb]" in ty
+
+
+def run_zip(facts, report, config, eng=None, scope=None, prefix="c06.zip", counter="boxed_binary_predicates",
+            require_eq=False, what="predicate"):
+    """In a function over two heap-allocated operands, `zip` of their limb iterators silently stops at
+    the shorter one. Such a zip is accepted only when the function also aborts on a length mismatch
+    (for arithmetic: on *unequal* lengths — `>=` is not enough, the chain must run over the longer operand)."""
     zips_seen = 0
     for b in facts.fn_bodies():
         view = mir.BodyView(b)
@@ -231,12 +262,16 @@ def run_zip(facts, report, config, eng=None):
         if b["kind"] == "Closure":
             continue
         so = b.get("sig_out") or ""
-        dyn = [i for i in range(1, view.argc + 1)
-               if "uint::boxed::BoxedUint" in view.locals[i] or view.locals[i] in ("&[limb::Limb]", "&mut [limb::Limb]")]
-        if so not in PRED_RET or len(dyn) < 2:
+        dyn = [i for i in range(1, view.argc + 1) if _is_dyn(view.locals[i])]
+        if len(dyn) < 2:
             continue
-        report.count("boxed_binary_predicates")
-        key = "c06.zip|%s" % norm_id(b["id"])
+        if scope is None:
+            if so not in PRED_RET:
+                continue
+        elif not scope(b, view):
+            continue
+        report.count(counter)
+        key = "%s|%s" % (prefix, norm_id(b["id"]))
         prov = IterProv(view)
         bad = None
         for bi, t in view.calls():
@@ -247,7 +282,7 @@ def run_zip(facts, report, config, eng=None):
             if pa and pb and pa != pb and (pa | pb) <= set(dyn):
                 bad = (t["s"], sorted(pa), sorted(pb))
         if bad is None:
-            report.add(Instance(key, "c06.zip", "ok", "auto: no truncating zip over the limbs of two operands",
+            report.add(Instance(key, prefix, "ok", "auto: no truncating zip over the limbs of two operands",
                                 b["span"], {"body": b["id"]}), config)
             continue
         # a length comparison between the two operands?
@@ -259,14 +294,141 @@ def run_zip(facts, report, config, eng=None):
                 # only an assertion that aborts on a length mismatch does
                 if e.kind == "branch" and not e.via and view.abort_guard(e.bb[0]):
                     if any(l == "@%d#len" % bad[1][0] for l in e.labels) and any(l == "@%d#len" % bad[2][0] for l in e.labels):
-                        guarded = True
+                        if not require_eq or _cond_binop(view, e.bb[0]) in ("Eq", "Ne"):
+                            guarded = True
         if guarded:
-            report.add(Instance(key, "c06.zip", "ok", "auto: zip over both operands' limbs, with a branch comparing "
+            report.add(Instance(key, prefix, "ok", "auto: zip over both operands' limbs, with an assertion comparing "
                                 "their lengths", bad[0], {"body": b["id"]}), config)
         else:
-            report.add(Instance(key, "c06.zip", "violation",
-                                "predicate `%s` zips the limbs of operands _%s and _%s: iteration stops at the shorter "
-                                "operand, so values of different precision that differ only in the high limbs of the "
-                                "wider one are treated as equal (the shorter operand must be zero-padded)" % (
-                                    b.get("name"), bad[1], bad[2]), bad[0], {"body": b["id"]}), config)
+            report.add(Instance(key, prefix, "violation",
+                                "%s `%s` zips the limbs of operands _%s and _%s: iteration stops at the shorter "
+                                "operand, so for operands of different precision the limbs of the longer one beyond that "
+                                "point are %s (the shorter operand must be zero-padded)" % (
+                                    what, b.get("name"), bad[1], bad[2],
+                                    "never visited and the carry/borrow chain stops early" if require_eq else
+                                    "ignored: values differing only there are treated as equal"),
+                                bad[0], {"body": b["id"]}), config)
     report.counters["zip_call_bodies_positive_control"] = report.counters.get("zip_call_bodies_positive_control", 0) + zips_seen
+
+
+# ---------------------------------------------------------------------------------------------
+# Hash / Eq coherence: "values that compare equal hash equally".
+
+LEN_SEGS = {"len", "nlimbs", "bits_precision", "bytes_precision"}
+DYN_FIELD = ("alloc::boxed::Box<[", "alloc::vec::Vec<", "[")
+EQ_SEGS = {"eq", "ne", "ct_eq", "ct_ne"}
+
+
+def _dyn_fields(facts, adt):
+    a = facts.adts.get(adt or "")
+    if not a or a["kind"] != "Struct":
+        return None, []
+    fs = [f for f in a["variants"][0]["fields"] if "PhantomData" not in f["ty"]]
+    return fs, [f["name"] for f in fs if f["ty"].startswith(DYN_FIELD) and ";" not in f["ty"]]
+
+
+def _len_of_param(view, prov, op, depth=0):
+    """parameter index if `op` is purely the length / precision of one parameter, else None"""
+    ps = set()
+    for r in mir.uniq_roots(prov.roots_of_operand(op)):
+        if r.kind == "call" and r.site is not None and depth < 3:
+            t = view.blocks[r.site[0]]["term"]
+            seg = mir.last_seg(mir.callee_name(t)) or ""
+            if seg in LEN_SEGS and t["args"]:
+                for r2 in mir.uniq_roots(prov.roots_of_operand(t["args"][0])):
+                    if r2.kind == "param":
+                        ps.add(r2.what)
+                    else:
+                        return None
+                continue
+            return None
+        elif r.kind == "op" and "PtrMetadata" in str(r.what):
+            return None if depth else None
+        else:
+            return None
+    return list(ps)[0] if len(ps) == 1 else None
+
+
+def _length_strict(eng, bid, depth=0, seen=None):
+    """Does the equality reached from body `bid` compare the two operands' lengths for equality?"""
+    seen = seen if seen is not None else set()
+    if bid in seen or depth > 2:
+        return False
+    seen.add(bid)
+    view = eng.view(bid)
+    prov = IterProv(view)
+    for bb in view.blocks:
+        if bb["cleanup"]:
+            continue
+        for s in bb["stmts"]:
+            if s[0] == "a" and s[2][0] == "bin" and s[2][1] in ("Eq", "Ne"):
+                a, b = _len_of_param(view, prov, s[2][2]), _len_of_param(view, prov, s[2][3])
+                if a and b and a != b:
+                    return True
+        t = bb["term"]
+        if t["k"] == "call":
+            seg = mir.last_seg(mir.callee_decl(t)) or ""
+            if seg in EQ_SEGS and len(t["args"]) >= 2:
+                a, b = _len_of_param(view, prov, t["args"][0]), _len_of_param(view, prov, t["args"][1])
+                if a and b and a != b:
+                    return True
+            if seg in EQ_SEGS or seg in ("into", "from"):
+                for cid in eng.callee_ids(t):
+                    if _length_strict(eng, cid, depth + 1, seen):
+                        return True
+    return False
+
+
+def run_hash(facts, report, config, eng):
+    eqs = {}
+    for b in facts.fn_bodies():
+        if b.get("name") == "eq" and b.get("impl_trait") == "core::cmp::PartialEq":
+            st = b.get("impl_self") or ""
+            # only T == T
+            view = eng.view(b["id"])
+            if view.argc == 2 and mir.peel_refs(view.locals[1]) == mir.peel_refs(view.locals[2]):
+                eqs[mir.adt_of_ty(st)] = b
+    for imp in facts.impls:
+        if imp.get("trait") != "core::hash::Hash":
+            continue
+        adt = mir.adt_of_ty(imp["self"])
+        key = "c06.hash|%s" % norm_id(adt or imp["self"])
+        report.count("hash_impls")
+        eq = eqs.get(adt)
+        if eq is None:
+            report.add(Instance(key, "c06.hash", "info", "Hash without an in-crate PartialEq: nothing to compare", imp["span"], {}), config)
+            continue
+        if not imp.get("derived"):
+            report.add(Instance(key, "c06.hash", "info", "hand-written Hash: coherence with Eq is a value fact, not decided",
+                                imp["span"], {}), config)
+            continue
+        if eq.get("derived"):
+            report.add(Instance(key, "c06.hash", "ok", "auto: Hash and PartialEq are both derived over the same fields",
+                                imp["span"], {}), config)
+            continue
+        fields, dyn = _dyn_fields(facts, adt)
+        if fields is None:
+            report.add(Instance(key, "c06.hash", "info", "not a struct: not judged", imp["span"], {}), config)
+            continue
+        summ = eng.summaries.get(eq["id"])
+        labels = flow.v_flat(summ.ret) if summ else frozenset()
+        problems = []
+        for f in fields:
+            for p in (1, 2):
+                pre = "@%d.%s" % (p, f["name"])
+                if not any(l == pre or l.startswith(pre + ".") or l.startswith(pre + "#") for l in labels) and \
+                        not any(l == "@%d" % p for l in labels):
+                    problems.append("derived Hash feeds field `%s`, but `==` does not depend on it for operand _%d: values "
+                                    "differing only in that field compare equal and hash differently" % (
+                                        f["name"], p))
+        if dyn and not _length_strict(eng, eq["id"]):
+            problems.append("derived Hash feeds the length and every element of the dynamically sized field `%s`, but `==` "
+                            "does not require equal lengths (it compares across precisions): two values that compare "
+                            "equal with different lengths hash differently" % dyn[0])
+        if problems:
+            report.add(Instance(key, "c06.hash", "violation", "; ".join(problems), imp["span"],
+                                {"eq": eq["id"], "dynamic_fields": dyn}), config)
+        else:
+            report.add(Instance(key, "c06.hash", "ok",
+                                "auto: hand-written `==` depends on every field the derived Hash feeds%s" % (
+                                    " and requires equal lengths" if dyn else ""), imp["span"], {"eq": eq["id"]}), config)
